@@ -142,6 +142,13 @@ class SliceToList(Contract):
             out.append(('step-positive', s.step >= 1))
         return out
 
+    def result(self, e, st, args):
+        import z3
+        from pyvc.engine import Tup, Opaque
+        s = e.deref(st, args['slice_func'])
+        step = z3.IntVal(1) if s.step is None else e.fresh('rng_step', 'int')
+        return Tup([Opaque('range'), e.fresh('rng_lo', 'int'), e.fresh('rng_hi', 'int'), step])
+
     def ensures(self, L, A, N, R, G, V):
         s, n = A['slice_func'], A['length']
         lo = 0 if s.start is None else L.ite(s.start < 0, s.start + n, s.start)
@@ -165,6 +172,7 @@ class IisFromSlices(Contract):
        the row index over block p is rows[p];  `lengths` is left unchanged."""
     key = F + '_get_iis_from_slices'
     local_kinds = {'iis_2d': 'aranges', 'iis_2d_lengths': 'int', 'num': 'int'}
+    range_as_array = ('first_dimension_iis',)
     resizable = ('iis_2d', 'iis_2d_lengths')
     concat_full = True
     prune_paths = True
@@ -391,8 +399,9 @@ class GetItem(Contract):
     key = F + 'RaggedArray.__getitem__'
     prune_paths = True
 
-    def __init__(self, form='paired', start_none=False, stop_none=False, exclude=()):
+    def __init__(self, form='paired', start_none=False, stop_none=False, exclude=(), row_none=(True, True)):
         self.form, self.none, self.exclude = form, (start_none, stop_none, True), set(exclude)
+        self.rnone = tuple(row_none)
         self.abstract_nonlinear = False
 
     def params(self, e, st):
@@ -400,18 +409,39 @@ class GetItem(Contract):
         from pyvc.engine import Tup, Slice
         if self.form == 'paired':
             iis = Tup([_arr(e, st, 'r', 'M'), _arr(e, st, 'c', 'M2')])
+        elif self.form == 'slice-slice':
+            rlo, rhi = [None if isnone else z3.Int(nm) for nm, isnone in zip(('rs_start', 'rs_stop'), self.rnone)]
+            lo, hi = [None if isnone else z3.Int(nm) for nm, isnone in zip(('sl_start', 'sl_stop'), self.none[:2])]
+            iis = Tup([Slice(rlo, rhi, None), Slice(lo, hi, None)])
         else:
             lo, hi = [None if isnone else z3.Int(nm) for nm, isnone in zip(('sl_start', 'sl_stop'), self.none[:2])]
             iis = Tup([_arr(e, st, 'rows', 'M'), Slice(lo, hi, None)])
         return {'self': _ra_self(e, st), 'iis': iis}
+
+    def row_facts(self):
+        """named facts the last postcondition needs about which rows were selected"""
+        if self.form == 'slice-slice':
+            return ['_slice_to_list:first-row-as-python-slicing', '_slice_to_list:end-row-as-python-slicing', '_slice_to_list:same-step', 'pre:some-rows']
+        return ['pre:rows-exist']
+
+    def rows_of(self, L, A):
+        """(number of selected rows, p -> row id) for the row-array and the row-slice forms"""
+        first = A['iis'][0]
+        if self.form == 'slice-slice':
+            n = L.len(A['self'].lengths)
+            lo = 0 if first.start is None else L.ite(first.start < 0, first.start + n, first.start)
+            hi = n if first.stop is None else L.ite(first.stop < 0, first.stop + n, first.stop)
+            return L.max(hi - lo, 0), (lambda p: lo + p)
+        return L.len(first), (lambda p: first[p])
 
     def ghost(self, L, A):
         ln = A['self'].lengths
         PS, ax = prefix_sums(L, ln, 'PSG')
         G = {'PS': PS}
         if self.form != 'paired':
-            rows, s = A['iis']
-            m = L.len(rows)
+            s = A['iis'][1]
+            m, row = self.rows_of(L, A)
+            rows = type('Rows', (), {'__getitem__': lambda self_, p: row(p)})()
             cnt = lambda p: L.alen(*py_bounds(L, s, ln[rows[p]]), 1)
             if L.sym:
                 OFF = L.func('OFF', 'int', 'int')      # the same ghost (same recurrence over the same rows / lengths / slice) as the callee _get_iis_from_slices uses
@@ -432,7 +462,7 @@ class GetItem(Contract):
         out = [dict(name='prefix-sums-below-total', lo=0, hi=n, down=True, P=lambda t: PS(t) <= PS(n)),
                dict(name='prefix-sums-nonneg', lo=0, hi=n, down=False, P=lambda t: PS(t) >= 0)]
         if self.form != 'paired':
-            m = L.len(A['iis'][0])
+            m = self.rows_of(L, A)[0]
             out.append(dict(name='every-selected-row-contributes', lo=0, hi=m, down=False, P=lambda t: G['OFF'](t) >= t))
             out.append(dict(name='block-offsets-below-total', lo=0, hi=m, down=True, P=lambda t: G['OFF'](t) <= G['OFF'](m)))
         return out
@@ -445,6 +475,15 @@ class GetItem(Contract):
         if self.form == 'paired':
             r, c = A['iis']
             out += [('paired-indices', L.And(L.len(r) == L.len(c), L.len(r) >= 1)), ('rows-addressable', L.forall(0, L.len(r), lambda k: L.And(r[k] >= -n, r[k] < n)))]
+        elif self.form == 'slice-slice':
+            first = A['iis'][0]
+            m, row = self.rows_of(L, A)
+            if first.start is not None:
+                out.append(('row-start-within-rows', L.And(first.start >= -n, first.start <= n)))
+            if first.stop is not None:
+                out.append(('row-stop-within-rows', L.And(first.stop >= -n, first.stop <= n)))
+            out += [('outside-known-finding-class:some-row-selected', m >= 1),
+                    ('outside-known-finding-class:no-selected-row-comes-out-empty', L.forall(0, m, lambda p: G['cnt'](p) >= 1))]
         else:
             rows, sl = A['iis']
             out += [('rows-exist', L.And(L.len(rows) >= 1, L.forall(0, L.len(rows), lambda p: L.And(rows[p] >= 0, rows[p] < n)))),
@@ -467,18 +506,34 @@ class GetItem(Contract):
             cp = lambda k: L.ite(c[k] < 0, c[k] + ln[rp(k)], c[k])
             return [('one-value-per-pair', L.len(R) == L.len(r)),
                     ('value-is-the-element-of-its-row', L.forall(0, L.len(r), lambda k: R[k] == data[PS(rp(k)) + cp(k)]))]
-        rows, sl = A['iis']
-        m, OFF, cnt = L.len(rows), G['OFF'], G['cnt']
+        sl = A['iis'][1]
+        m, row = self.rows_of(L, A)
+        rows = type('Rows', (), {'__getitem__': lambda self_, p: row(p)})()
+        OFF, cnt = G['OFF'], G['cnt']
         S = lambda p: py_bounds(L, sl, ln[rows[p]])[0]
         return [('one-row-per-selected-row', L.And(L.len(R.lengths) == m, L.forall(0, m, lambda p: R.lengths[p] == cnt(p)))),
                 ('data-holds-the-selected-cells', L.len(R._data) == OFF(m)),
-                ('row-p-is-the-python-slice-of-the-selected-row', L.forall_dep(0, m, cnt, lambda p, j: R._data[OFF(p) + j] == data[PS(rows[p]) + S(p) + j]))]
+                ('row-p-is-the-python-slice-of-the-selected-row', L.forall_dep(0, m, cnt, lambda p, j: R._data[OFF(p) + j] == data[PS(rows[p]) + S(p) + j]),
+                 ['cut:flat-result-reads-the-generated-cells', '_get_iis_from_slices:row-index-over-each-block', '_get_iis_from_slices:column-index-follows-python-slicing',
+                  '_get_iis_from_slices:as-many-index-pairs-as-selected-cells', 'lemma:block-offsets-below-total', 'lemma:every-selected-row-contributes'] + self.row_facts())]
+
+    @property
+    def cuts(self):
+        if self.form == 'paired':
+            return {}
+
+        def after_read(L, V):
+            # every cell of the flat result is the cell (row, column) the helper generated for that position
+            iis_r, iis_c = V['iis']          # the local `iis` now holds the helper's (row indices, column indices)
+            data, sd, PS = V.old['self']._data, V['sliced_data'], V.ghost['PS']
+            return [dict(name='flat-result-reads-the-generated-cells', fact=L.And(L.len(sd) == L.len(iis_r), L.forall(0, L.len(iis_r), lambda k: sd[k] == data[PS(iis_r[k]) + iis_c[k]])))]
+        return {'sliced_data': after_read}
 
     def pins(self):
         import z3
         return [[z3.Int('N') == 2, z3.Int('M') == 1, z3.Int('M2') == 1, z3.Int('ND') == 2], [z3.Int('N') == 2, z3.Int('M') == 2, z3.Int('M2') == 2, z3.Int('ND') == 3]]
 
 
-def registry_getitem(form='paired', start_none=False, stop_none=False, exclude=()):
-    cs = [GetItem(form, start_none, stop_none, exclude), HandleNegative(), ConvertFrom2d(), Starts(), RaggedInit(), IisFromSlices(start_none, stop_none, True, exclude), IisFromList(), SliceToList()]
+def registry_getitem(form='paired', start_none=False, stop_none=False, exclude=(), row_none=(True, True)):
+    cs = [GetItem(form, start_none, stop_none, exclude, row_none), HandleNegative(), ConvertFrom2d(), Starts(), RaggedInit(), IisFromSlices(start_none, stop_none, True, exclude), IisFromList(), SliceToList()]
     return {c.key: c for c in cs}
